@@ -396,17 +396,19 @@ where
             let run_futs = policy
                 .other_parties()
                 .map(async |p| client.run(p, run_request.clone()).await);
-            if let Err(err) = future::try_join_all(run_futs).await
-                && let Some(url) = policy.output
-            {
-                let _ = client
-                    .output(
-                        url.clone(),
-                        Err(OutputError::RequestRunError {
-                            source: Box::new(err),
-                        }),
-                    )
-                    .await;
+            if let Err(err) = future::try_join_all(run_futs).await {
+                if let Some(url) = policy.output {
+                    let _ = client
+                        .output(
+                            url.clone(),
+                            Err(OutputError::RequestRunError {
+                                source: Box::new(err),
+                            }),
+                        )
+                        .await;
+                }
+                // The policy can't be evaluated without all followers, stop the state machine
+                // (which releases the concurrency permit) also if there is no output URL.
                 return ControlFlow::Break(());
             }
             debug!("followers are running");
